@@ -1,4 +1,5 @@
 import Goat.Lemmas.OMap
+import Goat.Model.Tuple
 /-!
 # C10 — script maps behave like Go maps under any history of operations
 
@@ -291,6 +292,122 @@ example :
 example : Inv ((M.ofList [(1, 1), (2, 2)] : M Nat Nat).delete 1 [2]) :=
   inv_delete _ 1 [2] (inv_ofList _) (by decide)
 
+
+/-! ### multi-target assignment: `m[k1], m[k2], x = v1, v2, v3` (Model/Tuple.lean)
+
+goatlang stores the targets from the last to the first, Go from the first to the last. The
+theorems say exactly where that can be seen: nowhere when no location is the target of two stores
+(`tuple_assign_distinct`), and otherwise only at a location named twice with different first and
+last values (`tuple_assign_differs_iff`) — the open finding `tuple-assignment-same-key`. -/
+section Tuple
+open Goat.Tuple
+variable {L V : Type} [DecidableEq L]
+
+theorem foldl_step_append (σ : L → V) (a b : List (Option L × V)) :
+    (a ++ b).foldl step σ = b.foldl step (a.foldl step σ) := List.foldl_append ..
+
+/-- after applying the stores of `tvs` in list order, a location holds the value of the LAST entry
+    naming it, else its old value -/
+theorem foldl_reads_last (tvs : List (Option L × V)) (σ : L → V) (l : L) :
+    tvs.foldl step σ l = (firstFor l tvs.reverse).getD (σ l) := by
+  induction tvs generalizing σ with
+  | nil => rfl
+  | cons tv rest ih =>
+    rw [List.foldl_cons, ih, List.reverse_cons]
+    have happ : ∀ (a : List (Option L × V)) (d : V),
+        (firstFor l (a ++ [tv])).getD d = (firstFor l a).getD ((firstFor l [tv]).getD d) := by
+      intro a d
+      induction a with
+      | nil => rfl
+      | cons x xs ihx =>
+        obtain ⟨xl, xv⟩ := x
+        cases xl with
+        | none => simpa [firstFor] using ihx
+        | some l' =>
+          by_cases e : l' = l
+          · simp [firstFor, e]
+          · simpa [firstFor, e] using ihx
+    rw [happ]
+    congr 1
+    obtain ⟨tl, tvv⟩ := tv
+    cases tl with
+    | none => simp [step, firstFor]
+    | some l' =>
+      by_cases e : l' = l
+      · simp [step, put, firstFor, e]
+      · have e' : ¬ l = l' := fun h => e h.symm
+        simp [step, put, firstFor, e, e']
+
+/-- **go_reads_last / impl_reads_first.** -/
+theorem go_reads_last (σ : L → V) (tvs : List (Option L × V)) (l : L) :
+    goStores σ tvs l = (lastFor l tvs).getD (σ l) := foldl_reads_last tvs σ l
+
+theorem impl_reads_first (σ : L → V) (tvs : List (Option L × V)) (l : L) :
+    implStores σ tvs l = (firstFor l tvs).getD (σ l) := by
+  unfold implStores
+  rw [foldl_reads_last, List.reverse_reverse]
+
+/-- no location is named by two targets -/
+def Distinct : List (Option L × V) → Prop
+  | [] => True
+  | (some l, _) :: rest => firstFor l rest = none ∧ Distinct rest
+  | (none, _) :: rest => Distinct rest
+
+theorem firstFor_append (l : L) (a b : List (Option L × V)) :
+    firstFor l (a ++ b) = (firstFor l a).orElse (fun _ => firstFor l b) := by
+  induction a with
+  | nil => simp [firstFor]
+  | cons x xs ih =>
+    obtain ⟨xl, xv⟩ := x
+    cases xl with
+    | none => simpa [firstFor] using ih
+    | some l' =>
+      by_cases e : l' = l
+      · simp [firstFor, e]
+      · simpa [firstFor, e] using ih
+
+theorem first_eq_last_of_distinct (l : L) (tvs : List (Option L × V)) (h : Distinct tvs) :
+    lastFor l tvs = firstFor l tvs := by
+  unfold lastFor
+  induction tvs with
+  | nil => rfl
+  | cons x xs ih =>
+    obtain ⟨xl, xv⟩ := x
+    rw [List.reverse_cons, firstFor_append]
+    cases xl with
+    | none =>
+      rw [ih h]
+      cases hq : firstFor l xs <;> simp [firstFor, hq]
+    | some l' =>
+      obtain ⟨h1, h2⟩ := h
+      rw [ih h2]
+      by_cases e : l' = l
+      · subst e; simp [firstFor, h1]
+      · cases hq : firstFor l xs <;> simp [firstFor, e, hq]
+
+/-- **tuple_assign_distinct.** When no location is the target of two stores, goatlang's right-to-left
+    stores leave exactly the state Go's left-to-right stores leave. -/
+theorem tuple_assign_distinct (σ : L → V) (tvs : List (Option L × V)) (h : Distinct tvs) :
+    implStores σ tvs = goStores σ tvs := by
+  funext l
+  rw [impl_reads_first, go_reads_last, first_eq_last_of_distinct l tvs h]
+
+/-- and in general the two differ at `l` exactly when the first and the last target naming `l`
+    carry different values -/
+theorem tuple_assign_differs_iff (σ : L → V) (tvs : List (Option L × V)) (l : L) :
+    implStores σ tvs l = goStores σ tvs l ↔ (firstFor l tvs).getD (σ l) = (lastFor l tvs).getD (σ l) := by
+  rw [impl_reads_first, go_reads_last]
+
+/-- the open finding `tuple-assignment-same-key` as a theorem about the model: `m[k], m[k] = 1, 2` -/
+example : runOn false [0] [(some 0, 1), (some 0, 2)] = [1] ∧ runOn true [0] [(some 0, 1), (some 0, 2)] = [2] := by
+  decide
+
+/-- non-vacuity: the swap and the pop-front shape satisfy `Distinct` -/
+example : Distinct [((some 0 : Option Nat), (5 : Int)), (some 1, 6), (none, 7)] := by
+  simp [Distinct, firstFor]
+
+end Tuple
+
 end Goat.Props.C10
 
 #print axioms Goat.Props.C10.get_set
@@ -306,3 +423,7 @@ end Goat.Props.C10
 #print axioms Goat.Props.C10.range_contract
 #print axioms Goat.Props.C10.history_refines
 #print axioms Goat.Props.C10.len_refines
+#print axioms Goat.Props.C10.go_reads_last
+#print axioms Goat.Props.C10.impl_reads_first
+#print axioms Goat.Props.C10.tuple_assign_distinct
+#print axioms Goat.Props.C10.tuple_assign_differs_iff
